@@ -20,36 +20,37 @@ type stmt struct {
 
 // Fixed list of families (finding classes). Keep stable: known_findings.jsonl keys refer to them.
 var families = []string{
-	"plain",                      // no disguise at all
-	"quoting",                    // legal quoting styles around names / paths (single, double, backtick, dollar, E)
-	"reader-spelling",            // file-reading table functions: case, whitespace/comment before '(', quoted / qualified names
-	"reader-nonascii-blank",      // a non-ASCII blank (U+00A0) between the reader name and the parenthesis
-	"backslash-quote",            // `\` before the closing quote of a plain '…' literal
-	"backslash-dquote",           // `\` before the closing quote of a "…" identifier
-	"estring-backslash",          // E'…\\' (escaped backslash before the closing quote) and E'…\'…'
-	"quote-in-line-comment",      // quote character inside a `--` comment
-	"quote-in-block-comment",     // quote character inside a /* */ comment
-	"comment-marker-in-literal",  // `--`, `/*`, `*/` inside literals / quoted identifiers
-	"nested-block-comment",       // /* /* */ */
-	"placeholder-lookalike",      // user text that looks like __STR_n__ / __IDENT_n__
-	"dollar-quote",               // $$…$$, $tag$…$tag$, stray `$`
-	"dollar-quote-tag",           // $tag$ replacement scans with every short tag (digits / underscore / non-ASCII in every position)
-	"dollar-quote-nonascii-tag",  // the same with a non-ASCII letter in the tag (DuckDB accepts it, the masker does not)
-	"skip-prefix-quoted",         // quoted measurement names starting with a skipPrefixes entry
-	"from-mask-lookalike",        // user text shaped like __FROM_MASK_n__ next to EXTRACT/SUBSTRING/TRIM/OVERLAY
-	"strip-mask-order",           // comment marker inside a literal arranged to flip the quote pairing if comments are stripped first
-	"query-function",             // query('<sql text>') / query_table('<name>'): SQL handed over inside a string literal
-	"denylist-gap",               // table functions of the linked DuckDB that are not on the denylist
-	"header-glued-from",          // header set; FROM glued to a preceding digit (single-table fast path)
-	"header-cte-gate",            // header set; CTE-name exclusion on the permission side only
-	"header-call-newline",        // header set; identifier followed by newline + '('
-	"header-cross-db",            // header set; dotted references in every spelling
-	"whitespace",                 // exotic whitespace between FROM/JOIN and the reference
-	"cte-shadow",                 // CTE names shadowing / colliding with real measurements, no header
-	"case-fold",                  // same measurement in different letter case
-	"measurement-where-subquery", // GET /api/v1/query/:measurement with a subquery in `where`
-	"show",                       // SHOW / listing endpoints
-	"random",                     // random compositions
+	"plain",                           // no disguise at all
+	"quoting",                         // legal quoting styles around names / paths (single, double, backtick, dollar, E)
+	"reader-spelling",                 // file-reading table functions: case, whitespace/comment before '(', quoted / qualified names
+	"reader-nonascii-blank",           // a non-ASCII blank (U+00A0) between the reader name and the parenthesis
+	"backslash-quote",                 // `\` before the closing quote of a plain '…' literal
+	"backslash-dquote",                // `\` before the closing quote of a "…" identifier
+	"estring-backslash",               // E'…\\' (escaped backslash before the closing quote) and E'…\'…'
+	"quote-in-line-comment",           // quote character inside a `--` comment
+	"quote-in-block-comment",          // quote character inside a /* */ comment
+	"comment-marker-in-literal",       // `--`, `/*`, `*/` inside literals / quoted identifiers
+	"nested-block-comment",            // /* /* */ */
+	"placeholder-lookalike",           // user text that looks like __STR_n__ / __IDENT_n__
+	"dollar-quote",                    // $$…$$, $tag$…$tag$, stray `$`
+	"dollar-quote-tag",                // $tag$ replacement scans with every short tag (digits / underscore / non-ASCII in every position)
+	"dollar-quote-nonascii-tag",       // the same with a non-ASCII letter in the tag (DuckDB accepts it, the masker does not)
+	"skip-prefix-quoted",              // quoted measurement names starting with a skipPrefixes entry
+	"from-mask-lookalike",             // user text shaped like __FROM_MASK_n__ next to EXTRACT/SUBSTRING/TRIM/OVERLAY
+	"strip-mask-order",                // comment marker inside a literal arranged to flip the quote pairing if comments are stripped first
+	"statement-kind-replacement-scan", // TABLE/SUMMARIZE/DESCRIBE/SHOW/PIVOT/UNPIVOT '<path>': table reference without FROM
+	"query-function",                  // query('<sql text>') / query_table('<name>'): SQL handed over inside a string literal
+	"denylist-gap",                    // table functions of the linked DuckDB that are not on the denylist
+	"header-glued-from",               // header set; FROM glued to a preceding digit (single-table fast path)
+	"header-cte-gate",                 // header set; CTE-name exclusion on the permission side only
+	"header-call-newline",             // header set; identifier followed by newline + '('
+	"header-cross-db",                 // header set; dotted references in every spelling
+	"whitespace",                      // exotic whitespace between FROM/JOIN and the reference
+	"cte-shadow",                      // CTE names shadowing / colliding with real measurements, no header
+	"case-fold",                       // same measurement in different letter case
+	"measurement-where-subquery",      // GET /api/v1/query/:measurement with a subquery in `where`
+	"show",                            // SHOW / listing endpoints
+	"random",                          // random compositions
 }
 
 type gen struct {
@@ -375,6 +376,22 @@ func (g *gen) grid() []stmt {
 					add("strip-mask-order", "from", hdr, "SELECT '"+mark+"' AS t\n, ' , canary FROM '"+file+"'"+tailq)
 					add("strip-mask-order", "reader", hdr, "SELECT '"+mark+"' AS t\n, ' , canary FROM parquet_scan('"+file+"')"+tailq)
 					add("strip-mask-order", "dq", hdr, "SELECT \""+mark+"\" AS t\n, \" , z.canary FROM "+ok+", '"+file+"' z --\"")
+				}
+			}
+		}
+	}
+
+	// --- statement kinds that take a table reference WITHOUT the FROM keyword: TABLE x, SUMMARIZE x, DESCRIBE x,
+	// SHOW x, PIVOT x ON …, UNPIVOT x ON … - with a replacement scan (quoted path) as x. No FROM/JOIN means: not
+	// in "table position" for the validator, no reference for the extractor, short-circuited transform.
+	{
+		file := g.root + "/" + secretDB + "/cpu/2024/01/01/00/part0.parquet"
+		for _, hdr := range []string{"", allowedDB} {
+			for _, q := range []string{"'" + file + "'", `"` + file + `"`, "$$" + file + "$$", "E'" + file + "'", "'" + sp + "'", secretDB + ".cpu", "cpu"} {
+				for _, st := range []string{"TABLE %s", "table %s", "SUMMARIZE %s", "SUMMARIZE TABLE %s", "DESCRIBE %s", "DESC %s", "DESCRIBE TABLE %s", "SHOW %s", "PIVOT %s ON canary USING count(*)",
+					"UNPIVOT %s ON v INTO NAME n VALUE x", "EXPLAIN TABLE %s", "EXPLAIN ANALYZE TABLE %s", "(TABLE %s)", "WITH w AS (TABLE %s) SELECT canary FROM w", "SELECT canary FROM (TABLE %s) t",
+					"SELECT canary FROM (PIVOT %s ON host USING count(*)) t", "TABLE %s ORDER BY v LIMIT 2", "SUMMARIZE SELECT canary FROM %s", "PIVOT_WIDER %s ON canary USING count(*)"} {
+					add("statement-kind-replacement-scan", strings.Fields(st)[0], hdr, fmt.Sprintf(st, q))
 				}
 			}
 		}
